@@ -379,6 +379,10 @@ pub fn specs_for(seed: u64, t: &Tier) -> Vec<(String, ProgSpec, u64)> {
         specs.push((format!("limit:{}", name), ProgSpec::Source(src), base + k as u64));
     }
     let base = specs.len() as u64;
+    for (k, (name, src)) in work::scale_templates().into_iter().enumerate() {
+        specs.push((format!("scale:{}", name), ProgSpec::Source(src), base + k as u64));
+    }
+    let base = specs.len() as u64;
     for j in 0..t.models {
         let case = base + j as u64;
         let mut rng = Rng::for_case(seed, "C08", "workload", case);
